@@ -402,6 +402,79 @@ func runC09(o *Out) {
 		o.Stats["invalid: "+k] = classes[k]
 	}
 	c09Sequences(o, docs)
+	c09BoolCases(o)
+}
+
+// model correspondence: the lifted scanner instance for a *bool destination, on the same chunkings
+func c09BoolCases(o *Out) {
+	var docs [][]byte
+	enumStrings([]byte("truefalsn \n\tx,"), 0, func([]byte) {})
+	for _, w := range []string{"true", "false", "null", " true", "\n\tfalse ", "  null\r", "tru", "t", "fals", "nul", "truE", "trux", "ttrue", "true true", "falsefalse", "nulll", "", " ", "x", ",true", "true,", "nil", "fal se", "\ttrue\n\n", "n", "f", "truetrue", "null,null"} {
+		docs = append(docs, []byte(w))
+	}
+	alpha := []byte("truefalsn x")
+	for i := 0; i < 300; i++ {
+		n := 1 + o.rng.Intn(7)
+		b := make([]byte, n)
+		for j := range b {
+			b[j] = alpha[o.rng.Intn(len(alpha))]
+		}
+		docs = append(docs, b)
+	}
+	for _, doc := range docs {
+		var cutsets [][]int
+		cutsets = append(cutsets, nil)
+		for p := 1; p < len(doc); p++ {
+			cutsets = append(cutsets, []int{p})
+			for q := p + 1; q < len(doc); q++ {
+				cutsets = append(cutsets, []int{p, q})
+			}
+		}
+		if len(doc) > 1 {
+			var all []int
+			for p := 1; p < len(doc); p++ {
+				all = append(all, p)
+			}
+			cutsets = append(cutsets, all)
+		}
+		for _, cuts := range cutsets {
+			b := true
+			marker := b
+			dec := gojson.NewDecoder(&cutReader{b: doc, cuts: cuts, failAt: -1})
+			var res string
+			func() {
+				defer func() {
+					if rec := recover(); rec != nil {
+						res = "PANIC"
+					}
+				}()
+				// decode twice with different initial values to tell null (destination untouched) from a value
+				err := dec.Decode(&b)
+				if err != nil {
+					res = "R"
+					return
+				}
+				off := dec.InputOffset()
+				b2 := false
+				dec2 := gojson.NewDecoder(&cutReader{b: doc, cuts: cuts, failAt: -1})
+				dec2.Decode(&b2)
+				switch {
+				case b == marker && b2 == false:
+					res = "A null @" + strconv.FormatInt(off, 10)
+				case b:
+					res = "A true @" + strconv.FormatInt(off, 10)
+				default:
+					res = "A false @" + strconv.FormatInt(off, 10)
+				}
+			}()
+			var cs []string
+			for _, c := range cuts {
+				cs = append(cs, strconv.Itoa(c))
+			}
+			o.emit("A", "c09.bool", [][]byte{doc, []byte(strings.Join(cs, " "))}, []byte(res), nil, false)
+			o.count("bool_scanner_cases", 1)
+		}
+	}
 }
 
 // (3) concatenated documents, More, InputOffset, Token
